@@ -1,5 +1,6 @@
 ------------------------------- MODULE Matcher -------------------------------
-(* C06: the rewriter's pattern matcher (SimplePatternMatcher, single-output-node patterns).       *)
+(* C06: the rewriter's pattern matcher (SimplePatternMatcher: single- and multi-output patterns,  *)
+(* remove_nodes True/False, commute).                                                            *)
 (*                                                                                              *)
 (* A behaviour builds a pattern bottom-up (AddPNode), instantiates it into a host graph           *)
 (* (Instantiate: one value per variable, one alternative per OR), applies at most one mutation   *)
@@ -16,8 +17,8 @@
 EXTENDS Integers, Sequences, FiniteSets, TLC, Json
 
 CONSTANTS Deviations, MaxPNodes, Features, OpSet, VarVals
-VARIABLES pat, alts, graph, gouts, root, stage, mut, verdict
-vars == <<pat, alts, graph, gouts, root, stage, mut, verdict>>
+VARIABLES pat, alts, pouts, graph, gouts, root, stage, mut, verdict
+vars == <<pat, alts, pouts, graph, gouts, root, stage, mut, verdict>>
 
 Ops == {"U", "C", "N", "M"}             \* unary, commutative binary, non-commutative binary, 2-output unary
 Arity(op) == IF op \in {"C", "N"} THEN 2 ELSE 1
@@ -75,18 +76,36 @@ CorrN(p, k, ch, S) ==
   ELSE {<<"node", "", p, k>>} \cup UNION {CorrV(InsOf(p, S)[i], InputAt(g, i), ch, S) : i \in 1..Len(pn.ins)}
 PVarsOf == UNION {{pat[p].ins[i][2] : i \in {i \in 1..Len(pat[p].ins) : pat[p].ins[i][1] = "var"}} : p \in 1..Len(pat)}
               \cup UNION {{alts[k][j][2] : j \in {j \in 1..2 : alts[k][j][1] = "var"}} : k \in 1..Len(alts)}
-Removable(nodes) ==        \* _valid_to_replace: outputs of matched nodes other than the pattern output
+EffGouts == gouts \cup {OutV(Len(graph), 0)}      \* the host graph returns its last node's first output, plus gouts
+Removable(nodes, outs) ==  \* _valid_to_replace: outputs of matched nodes other than the values of the pattern outputs
   \A k \in nodes : \A j \in 0..(NOuts(graph[k].op) - 1) :
      LET v == OutV(k, j) IN
-     v = OutV(root, 0) \/ (v \notin gouts /\ \A m \in 1..Len(graph) : (\E i \in 1..Len(graph[m].ins) : graph[m].ins[i] = v) => m \in nodes)
+     v \in outs \/ (v \notin EffGouts /\ \A m \in 1..Len(graph) : (\E i \in 1..Len(graph[m].ins) : graph[m].ins[i] = v) => m \in nodes)
+\* pouts: the values the pattern returns (each an output of a pattern node).  GraphPattern.__init__: the OUTPUT NODES are a
+\* minimal set of producers, in the order of pouts, whose backward slices (through node outputs, not through OR
+\* alternatives) cover the rest; the match is rooted at the first one, the others are searched in the whole graph.
+RECURSIVE BSlice(_)
+BSlice(p) == {p} \cup UNION {BSlice(pat[p].ins[i][3]) : i \in {i \in 1..Len(pat[p].ins) : pat[p].ins[i][1] = "out"}}
+RECURSIVE ONodes(_, _, _)
+ONodes(i, acc, cov) == IF i > Len(pouts) THEN acc
+                       ELSE LET c == pouts[i][3] IN
+                            IF c \in cov THEN ONodes(i + 1, acc, cov) ELSE ONodes(i + 1, Append(acc, c), cov \cup BSlice(c))
+OutputNodes == ONodes(1, <<>>, {})
+\* assignments of the other output nodes to graph nodes (the first is the root)
+OutAssigns == [2..Len(OutputNodes) -> 1..Len(graph)]
+CorrAll(ch, S, asg) == UNION {CorrN(OutputNodes[i], IF i = 1 THEN root ELSE asg[i], ch, S) : i \in 1..Len(OutputNodes)}
+NodesOfC(C) == {e[4] : e \in {e \in C : e[1] = "node"}}
+OutValsOfC(C) == UNION {{OutV(e[4], pouts[i][4]) : e \in {e \in C : e[1] = "node" /\ e[3] = pouts[i][3]}} : i \in 1..Len(pouts)}
+OutsBoundC(C) == \A i \in 1..Len(pouts) : \E e \in C : e[1] = "node" /\ e[3] = pouts[i][3]
 Functional(C, kind) == \A e1, e2 \in {e \in C : e[1] = kind} : (e1[2] = e2[2] /\ (kind = "var" \/ e1[3] = e2[3])) => e1 = e2
 \* keep = the rule keeps the matched nodes (remove_nodes=False): the removability side-condition does not apply
-IsInstanceSK(ch, S, keep) == LET C == CorrN(Len(pat), root, ch, S) IN
-                  /\ BAD \notin C /\ Functional(C, "node") /\ Functional(C, "var")
-                  /\ (keep \/ Removable({e[4] : e \in {e \in C : e[1] = "node"}}))
+IsInstanceA(ch, S, keep, asg) == LET C == CorrAll(ch, S, asg) IN
+                  /\ BAD \notin C /\ Functional(C, "node") /\ Functional(C, "var") /\ OutsBoundC(C)
+                  /\ (keep \/ Removable(NodesOfC(C), OutValsOfC(C)))
+IsInstanceSK(ch, S, keep) == \E asg \in OutAssigns : IsInstanceA(ch, S, keep, asg)
 IsInstanceS(ch, S) == IsInstanceSK(ch, S, FALSE)
 IsInstance(ch) == IsInstanceS(ch, {})
-BindingsOf(ch) == LET C == CorrN(Len(pat), root, ch, {}) IN
+BindingsOfA(ch, asg) == LET C == CorrAll(ch, {}, asg) IN
                   [n \in PVarsOf |-> LET S == {e[3] : e \in {e \in C : e[1] = "var" /\ e[2] = n}} IN IF S = {} THEN NONEV ELSE CHOOSE v \in S : TRUE]
 Choices == [1..Len(alts) -> 1..2]
 Matches == \E ch \in Choices : IsInstance(ch)
@@ -95,7 +114,7 @@ CommNodes == {p \in 1..Len(pat) : pat[p].op = "C" /\ Len(pat[p].ins) = 2}
 MatchesCommuted == \E S \in SUBSET CommNodes : \E ch \in Choices : IsInstanceS(ch, S)
 MatchesKeep == \E ch \in Choices : IsInstanceSK(ch, {}, TRUE)
 MatchesCommutedKeep == \E S \in SUBSET CommNodes : \E ch \in Choices : IsInstanceSK(ch, S, TRUE)
-DeclBindings == {BindingsOf(ch) : ch \in {ch \in Choices : IsInstance(ch)}}
+DeclBindings == {BindingsOfA(ca[1], ca[2]) : ca \in {ca \in Choices \X OutAssigns : IsInstanceA(ca[1], {}, FALSE, ca[2])}}
 
 -----------------------------------------------------------------------------
 (* OPERATIONAL model.  A partial match: b variable bindings, vb bindings of unnamed pattern values  *)
@@ -167,20 +186,35 @@ MAlts(a, j, v, st, devs) ==
   ELSE LET r == MValue(a[j], v, Append(st, EmptyPM), devs) IN
        IF r.ok THEN R(TRUE, Merge(r.st, devs.d)) ELSE MAlts(a, j + 1, v, st, devs)
 
-Run1(dv) ==
-  LET r == MNode(Len(pat), root, <<EmptyPM>>, dv) IN
-  IF ~r.ok THEN [ok |-> FALSE, b |-> {}, ns |-> <<>>]
+FAILED == [ok |-> FALSE, b |-> {}, ns |-> <<>>]
+\* _match_single_output_node / _multi_match for one combination of candidates (cand[i] = graph node for output node i)
+RECURSIVE MOutNodes(_, _, _, _)
+MOutNodes(i, cand, st, dv) == IF i > Len(OutputNodes) THEN R(TRUE, st)
+                              ELSE LET r == MNode(OutputNodes[i], cand[i], st, dv) IN
+                                   IF ~r.ok THEN r ELSE MOutNodes(i + 1, cand, r.st, dv)
+RunCand(cand, dv) ==
+  LET r == MOutNodes(1, cand, <<EmptyPM>>, dv) IN
+  IF ~r.ok THEN FAILED
   ELSE LET top == r.st[1]
            nodes == {top.ns[i] : i \in 1..Len(top.ns)}
-       IN IF ~dv.keep /\ ~Removable(nodes) THEN [ok |-> FALSE, b |-> {}, ns |-> <<>>]
+           outs == UNION {Lookup(top.vb, pouts[i]) : i \in 1..Len(pouts)}       \* _get_output_values
+       IN IF \E i \in 1..Len(pouts) : Lookup(top.vb, pouts[i]) = {} THEN FAILED
+          ELSE IF ~dv.keep /\ ~Removable(nodes, outs) THEN FAILED
           ELSE [ok |-> TRUE, b |-> top.b, ns |-> top.ns]
+\* match(): the first output node is the given node; the others range over the graph's nodes of the same operator, in
+\* graph order (itertools.product); the first combination that matches wins.  (At most two output nodes here.)
+RECURSIVE TryCands(_, _)
+TryCands(k, dv) == IF k > Len(graph) THEN FAILED
+                   ELSE IF graph[k].op # pat[OutputNodes[2]].op THEN TryCands(k + 1, dv)
+                   ELSE LET r == RunCand(<<root, k>>, dv) IN IF r.ok THEN r ELSE TryCands(k + 1, dv)
+Run1(dv) == IF Len(OutputNodes) = 1 THEN RunCand(<<root>>, dv) ELSE TryCands(1, dv)
 \* the code commits to the first alternative that matches locally ("or_commits_first"); the design
 \* re-enters later alternatives when the rest of the pattern fails: some forced choice succeeds
 Free == [k \in 1..Len(alts) |-> 0]
 RunWithK(devs, keep) ==
   IF "or_commits_first" \in devs \/ Len(alts) = 0 THEN Run1([d |-> devs, force |-> Free, keep |-> keep])
   ELSE LET good == {ch \in Choices : Run1([d |-> devs, force |-> ch, keep |-> keep]).ok}
-       IN IF good = {} THEN [ok |-> FALSE, b |-> {}, ns |-> <<>>]
+       IN IF good = {} THEN FAILED
           ELSE Run1([d |-> devs, force |-> CHOOSE ch \in good : \A c2 \in good : ch[1] <= c2[1], keep |-> keep])
 RunWith(devs) == RunWithK(devs, FALSE)
 
@@ -193,20 +227,29 @@ InVals == LeafVals \cup PrevOuts \cup OrVals
 AttrPats == IF "attr" \in Features THEN {<<"any", 0>>, <<"c", 1>>, <<"v", 0>>, <<"vo", 0>>} ELSE {<<"any", 0>>}
 Flags == IF "flags" \in Features THEN {<<FALSE, TRUE>>, <<TRUE, TRUE>>, <<FALSE, FALSE>>} ELSE {<<FALSE, TRUE>>}
 
-Init == /\ pat = <<>> /\ alts = <<>> /\ graph = <<>> /\ gouts = {} /\ root = 0 /\ stage = "pattern"
+Init == /\ pat = <<>> /\ alts = <<>> /\ pouts = <<>> /\ graph = <<>> /\ gouts = {} /\ root = 0 /\ stage = "pattern"
         /\ mut = "none" /\ verdict = <<>>
-AddPNode == /\ stage = "pattern" /\ Len(pat) < MaxPNodes
+AddPNode == /\ stage = "pattern" /\ pouts = <<>> /\ Len(pat) < MaxPNodes
             /\ \E op \in OpSet, at \in AttrPats, fl \in Flags :
                  \E ins \in IF Arity(op) = 1 THEN {<<a>> : a \in InVals}
                             ELSE {<<a, b>> : a \in InVals, b \in InVals}
                                  \cup (IF "optional" \in Features THEN {<<a, PNone>> : a \in InVals} ELSE {}) :
                     pat' = Append(pat, PN(op, ins, at, fl[1], fl[2]))
-            /\ UNCHANGED <<alts, graph, gouts, root, stage, mut, verdict>>
-AddOr == /\ stage = "pattern" /\ "or" \in Features /\ Len(alts) < 1 /\ Len(pat) >= 1
+            /\ UNCHANGED <<alts, pouts, graph, gouts, root, stage, mut, verdict>>
+AddOr == /\ stage = "pattern" /\ pouts = <<>> /\ "or" \in Features /\ Len(alts) < 1 /\ Len(pat) >= 1
          /\ \E a \in PrevOuts \cup {PVar("x")}, b \in PrevOuts : a # b /\ alts' = Append(alts, <<a, b>>)
-         /\ UNCHANGED <<pat, graph, gouts, root, stage, mut, verdict>>
+         /\ UNCHANGED <<pat, pouts, graph, gouts, root, stage, mut, verdict>>
+\* what the pattern function returns: the last node's output, optionally with one more value before or after it
+ChooseOutputs == /\ stage = "pattern" /\ pouts = <<>> /\ Len(pat) >= 1
+                 /\ \/ "multionly" \notin Features /\ pouts' = <<POut(Len(pat), 0)>>
+                    \/ /\ "multiout" \in Features
+                       /\ \E pv \in PrevOuts \ {POut(Len(pat), 0)} :
+                            \/ pouts' = <<POut(Len(pat), 0), pv>>
+                            \/ pouts' = <<pv, POut(Len(pat), 0)>>
+                 /\ UNCHANGED <<pat, alts, graph, gouts, root, stage, mut, verdict>>
 \* every pattern node and alternative must be reachable from the root under some choice
-Reachable == \A p \in 1..Len(pat) : \E ch \in [1..Len(alts) -> 1..2] : p \in NeedN(Len(pat), ch)
+NeedAll(ch) == UNION {NeedN(OutputNodes[i], ch) : i \in 1..Len(OutputNodes)}
+Reachable == \A p \in 1..Len(pat) : \E ch \in [1..Len(alts) -> 1..2] : p \in NeedAll(ch)
 UsesAllAlts == \A k \in 1..Len(alts) : \E p \in 1..Len(pat) : \E i \in 1..Len(pat[p].ins) : pat[p].ins[i] = POr(k)
 \* instantiate: host nodes for the needed pattern nodes (in pattern order), variables to host values
 InstNode(p, nm, vm, ch) ==
@@ -218,15 +261,15 @@ InstNode(p, nm, vm, ch) ==
       ins == IF ins0 # <<>> /\ ins0[Len(ins0)] = NONEV THEN SubSeq(ins0, 1, Len(ins0) - 1) ELSE ins0
   IN GN(pn.op, ins, IF pn.at[1] = "c" THEN pn.at[2] ELSE IF pn.at[1] = "v" THEN 2 ELSE 0)
 Instantiate ==
-  /\ stage = "pattern" /\ Len(pat) >= 1 /\ Reachable /\ UsesAllAlts
+  /\ stage = "pattern" /\ pouts # <<>> /\ Reachable /\ UsesAllAlts
   /\ \E ch \in [1..Len(alts) -> 1..2], vm \in [{"x", "y"} -> VarVals] :
-       LET need == NeedN(Len(pat), ch)
+       LET need == NeedAll(ch)
            order == SelectSeq([p \in 1..Len(pat) |-> p], LAMBDA p : p \in need)
            nm == [p \in 1..Len(pat) |-> IF p \in need THEN CHOOSE i \in 1..Len(order) : order[i] = p ELSE 0]
        IN /\ graph' = [i \in 1..Len(order) |-> InstNode(order[i], nm, vm, ch)]
-          /\ root' = Len(order)
+          /\ OutputNodes[1] \in need /\ root' = nm[OutputNodes[1]]
   /\ gouts' = {} /\ stage' = "instance"
-  /\ UNCHANGED <<pat, alts, mut, verdict>>
+  /\ UNCHANGED <<pat, alts, pouts, mut, verdict>>
 ReplaceIn(g, i, v) == [g EXCEPT !.ins[i] = v]
 Mutate ==
   /\ stage = "instance"
@@ -242,10 +285,10 @@ Mutate ==
      \/ \E k \in 1..Len(graph), a \in {0, 1, 2} :              \* an attribute no pattern mentions, with any value of "a"
           /\ graph' = [graph EXCEPT ![k] = [@ EXCEPT !.a = a, !.b = 1]] /\ mut' = "attr_b" /\ UNCHANGED <<gouts, root>>
      \/ \E k \in 1..Len(graph), j \in 0..1 :                     \* an extra consumer of a matched node's output
-          /\ j < NOuts(graph[k].op) /\ (k < Len(graph) \/ j = 1)   \* (not of the pattern output itself)
+          /\ j < NOuts(graph[k].op) /\ (k # root \/ j = 1)   \* (not of the pattern output itself)
           /\ graph' = Append(graph, GN("U", <<OutV(k, j)>>, 0)) /\ mut' = "consumer" /\ UNCHANGED <<gouts, root>>
      \/ \E k \in 1..Len(graph), j \in 0..1 :                     \* another output of a matched node is a graph output
-          /\ j < NOuts(graph[k].op) /\ (k < Len(graph) \/ j = 1)
+          /\ j < NOuts(graph[k].op) /\ (k # root \/ j = 1)
           /\ gouts' = {OutV(k, j)} /\ mut' = "graphout" /\ UNCHANGED <<graph, root>>
      \/ \E k \in 1..Len(graph) :
           /\ Len(graph[k].ins) = 2 /\ graph[k].ins[1] # graph[k].ins[2]
@@ -256,7 +299,7 @@ Mutate ==
           /\ Len(graph[k].ins) = 2
           /\ graph' = [graph EXCEPT ![k].ins = <<@[1]>>] /\ mut' = "drop_input" /\ UNCHANGED <<gouts, root>>
   /\ stage' = "mutated"
-  /\ UNCHANGED <<pat, alts, verdict>>
+  /\ UNCHANGED <<pat, alts, pouts, verdict>>
 Evaluate ==
   /\ stage = "mutated"
   /\ LET impl == RunWith(Deviations)
@@ -267,8 +310,8 @@ Evaluate ==
                     implK |-> implK.ok, idealK |-> RunWithK({}, TRUE).ok,
                     whyK |-> {d \in Deviations : RunWithK(Deviations \ {d}, TRUE).ok # implK.ok}]
   /\ stage' = "done"
-  /\ UNCHANGED <<pat, alts, graph, gouts, root, mut>>
-Next == AddPNode \/ AddOr \/ Instantiate \/ Mutate \/ Evaluate
+  /\ UNCHANGED <<pat, alts, pouts, graph, gouts, root, mut>>
+Next == AddPNode \/ AddOr \/ ChooseOutputs \/ Instantiate \/ Mutate \/ Evaluate
 Spec == Init /\ [][Next]_vars
 
 BOf(r) == [n \in PVarsOf |-> LET s == Lookup(r.b, n) IN IF s = {} THEN NONEV ELSE CHOOSE v \in s : TRUE]
@@ -279,7 +322,7 @@ DesignOK == stage = "done" => (Agrees(verdict.ideal) /\ (verdict.idealK <=> Matc
 \* the committed-first OR is a documented limitation of the code: only a *false negative* is allowed by it
 DeviationsExplain == stage = "done" => /\ (Agrees(verdict.impl) \/ verdict.why # {})
                                         /\ ((verdict.implK <=> MatchesKeep) \/ verdict.whyK # {})
-Emit == stage = "done" => PrintT(<<"CASE", ToJson([pat |-> pat, alts |-> alts, graph |-> graph, gouts |-> gouts, root |-> root, mut |-> mut,
+Emit == stage = "done" => PrintT(<<"CASE", ToJson([pat |-> pat, alts |-> alts, pouts |-> pouts, graph |-> graph, gouts |-> gouts, root |-> root, mut |-> mut,
                                                     decl |-> verdict.decl, declB |-> verdict.declB, declC |-> MatchesCommuted,
                                                     declK |-> MatchesKeep, declCK |-> MatchesCommutedKeep, implK |-> verdict.implK, whyK |-> verdict.whyK,
                                                     impl |-> [ok |-> verdict.impl.ok, b |-> BOf(verdict.impl), ns |-> verdict.impl.ns],
@@ -289,6 +332,9 @@ NoDevs == {}
 \* "or_merge_drops" was real on the pinned tree and is fixed in /repo (fix: merging a successful OR alternative ...)
 RealDevs == {"or_commits_first"}
 AllFeatures == {"attr", "flags", "optional", "or"}
+MultiFeatures == {"or", "multiout"}
+MultiOnly == {"multiout", "multionly"}
+MultiOr == {"or", "multiout", "multionly"}
 BasicFeatures == {"or"}
 AllOps == Ops
 TwoOps == {"U", "C"}
